@@ -1084,4 +1084,112 @@ theorem bestPad_spec {cs : List Content} {b : Content} (h : bestPad cs = some b)
   · exact h1
   · cases h1
 
+
+/-- a closed channel is observed only behind a sender whose receiver was dropped -/
+theorem deliver_closed {hung cs : List Nat} {o : Outcome} {x : Nat}
+    (h : (x, Outcome.closed) ∈ (deliver hung cs o).1) : o = .closed ∨ ∃ c' ∈ cs, c' ∈ hung := by
+  induction cs with
+  | nil => simp [deliver] at h
+  | cons c cs ih =>
+    simp only [deliver] at h
+    split at h
+    · rename_i hc
+      right; exact ⟨c, List.mem_cons_self .., by simpa using hc⟩
+    · rcases List.mem_cons.1 h with h | h
+      · simp only [Prod.mk.injEq] at h
+        left; exact h.2.symm
+      · rcases ih h with h | ⟨c', h1, h2⟩
+        · left; exact h
+        · right; exact ⟨c', List.mem_cons_of_mem _ h1, h2⟩
+
+theorem completedOutcome_ne_closed (cfg : Cfg) (rs : List (Content × List Nat)) (c : Content) :
+    completedOutcome cfg rs c ≠ .closed := by
+  unfold completedOutcome sendChecked
+  intro h
+  split at h
+  · split at h
+    · split at h <;> cases h
+    · cases h
+  · dsimp only at h
+    split at h <;> cases h
+
+theorem finishedOutcome_ne_closed (q : Query) : finishedOutcome q ≠ .closed := by
+  unfold finishedOutcome
+  intro h
+  split at h
+  · cases h
+  · split at h <;> cases h
+  · cases h
+
+theorem timeoutOutcome_ne_closed (q : Query) : timeoutOutcome q ≠ .closed := by
+  unfold timeoutOutcome sendChecked
+  intro h
+  split at h
+  · split at h
+    · split at h
+      · split at h <;> cases h
+      · cases h
+    · cases h
+  · cases h
+
+/-- a step lets a caller observe a closed channel only if some caller of the same query hung up -/
+theorem step_closed {s : State} {op : Op} {x : Nat} (h : (x, Outcome.closed) ∈ (step s op).2.deliveries) :
+    ∃ q ∈ s.pending, x ∈ q.senders ∧ ∃ c' ∈ q.senders, c' ∈ s.hung := by
+  cases op with
+  | get key caller cfg =>
+    simp only [step] at h
+    split at h
+    · simp at h
+    · split at h <;> simp at h
+  | found qid p c =>
+    simp only [step] at h
+    split at h
+    · simp at h
+    · rename_i q hq
+      split at h
+      · simp only [terminate] at h
+        rcases deliver_closed h with hc | hc
+        · exact absurd hc (completedOutcome_ne_closed _ _ _)
+        · exact ⟨q, (findQ_some hq).1, (deliver_mem h).1, hc⟩
+      · simp at h
+  | finished qid =>
+    simp only [step] at h
+    split at h
+    · simp at h
+    · rename_i q hq
+      simp only [terminate] at h
+      rcases deliver_closed h with hc | hc
+      · exact absurd hc (finishedOutcome_ne_closed _)
+      · exact ⟨q, (findQ_some hq).1, (deliver_mem h).1, hc⟩
+  | notFound qid =>
+    simp only [step] at h
+    split at h
+    · simp at h
+    · rename_i q hq
+      simp only [terminate] at h
+      rcases deliver_closed h with hc | hc
+      · cases hc
+      · exact ⟨q, (findQ_some hq).1, (deliver_mem h).1, hc⟩
+  | quorumFailed qid =>
+    simp only [step] at h
+    split at h
+    · simp at h
+    · rename_i q hq
+      simp only [terminate] at h
+      rcases deliver_closed h with hc | hc
+      · cases hc
+      · exact ⟨q, (findQ_some hq).1, (deliver_mem h).1, hc⟩
+  | timeout qid =>
+    simp only [step] at h
+    split at h
+    · simp at h
+    · rename_i q hq
+      simp only [terminate] at h
+      rcases deliver_closed h with hc | hc
+      · exact absurd hc (timeoutOutcome_ne_closed _)
+      · exact ⟨q, (findQ_some hq).1, (deliver_mem h).1, hc⟩
+  | hangup caller =>
+    simp only [step] at h
+    split at h <;> simp at h
+
 end SafeNet.Quorum
